@@ -49,6 +49,34 @@ func gen(g *common.Gen) {
 			g.Op("cmp")
 			g.Op("new")
 		}
+		// one light history per normal one: the HMAC signers (Data and Interest) with a key of every
+		// length around the SHA-256 block size and beyond, cycling through the list
+		{
+			lens := []int{0, 1, 31, 32, 63, 64, 65, 66, 127, 128, 129, 200}
+			l := lens[i%len(lens)]
+			hk := "mkd /8:61 - - - " + common.Hex(r.Bytes(r.Range(0, 20))) + " hmac~" + strconv.Itoa(l)
+			if (i/len(lens))%2 == 0 {
+				hk = "mki /8:61 0 0 - - - - " + common.Hex(r.Bytes(r.Range(0, 20))) + " hmacint~" + strconv.Itoa(l)
+			}
+			g.Op("%s", hk)
+			g.Op("val c")
+			g.Op("val own")
+			g.Op("cmp")
+			g.Op("new")
+			g.Stat("hmac-keylen-sweep")
+		}
+		// … and one where a shipped signer (cycling through all of them) is used by 4 goroutines at once
+		{
+			all := []string{"shaint", "hmacint", "eccint", "rsaint", "sha", "hmac", "ecc", "rsa", "hmaccert", "ecccert", "eccint521", "ecc384", "hmacint~65", "ecc224"}
+			tok := all[i%len(all)]
+			pm := "mkd /8:61 - - - " + common.Hex(r.Bytes(r.Range(1, 1200))) + " " + tok
+			if strings.HasSuffix(c03.SigBase(tok), "int") || (i/len(all))%2 == 1 && !strings.Contains(tok, "cert") {
+				pm = "mki /8:61 0 0 - - 4000 - " + common.Hex(r.Bytes(r.Range(1, 1200))) + " " + tok
+			}
+			g.Op("par 4 %s", pm)
+			g.Op("new")
+			g.Stat("par-sweep")
+		}
 		{
 			for {
 				if i%2 == 0 {
